@@ -38,8 +38,8 @@ type Case struct {
 }
 
 // a/ ~ a/a/a/ ~ a/b/b/ (three ssids with one XOR hash code), a/b/c/ ~ a/c/b/, a/b/a/ ~ b/ : per-connection counter chains
-var chans = []string{"a/", "a/b/", "a/b/c/", "x/", "a/b/", "a/", "a/c/b/", "a/b/a/", "b/a/", "a/a/a/", "a/b/b/", "a/a/a/", "a/b/b/"}
-var watchChans = []string{"a/", "a/b/", "x/"}
+var chans = []string{"a/", "a/b/", "a/b/c/", "x/", "a/b/", "a/", "a/c/b/", "a/b/a/", "b/a/", "a/a/a/", "a/b/b/", "a/a/a/", "a/b/b/", "presence/", "presence/lobby/", "emitter/"}
+var watchChans = []string{"a/", "a/b/", "x/", "presence/"} // presence/ and emitter/: ordinary channels named like the broker's reserved words
 
 func genCase(t *rapid.T) Case {
 	c := Case{}
